@@ -8,6 +8,9 @@ e  predictions: natural adds step at the configured indices; secant r_last + tan
 f  members are corrected orbits carrying 2*half_period of their own correction
 
 e (added)  one-parameter secant step: arc length |s0| for a 1-element step of either sign
+
+f (round 3)  the default continuation parameter of a family consists of free coordinates of the reversing symmetry its correction relies on
+d-cache (round 3)  the generate() key contains the options whole (C20.b re-filed)
 """
 from __future__ import annotations
 
